@@ -351,6 +351,39 @@ def run_extras(r, iface):
                     app = W[wname](app)
                 res = call(iface, app, "GET")
                 judge(r, iface, f"{name} behind middleware {'>'.join(stack)}", res, None)
+        # file and streaming responses behind the middleware, on a server that announces the zero-copy extension (ASGI), with and
+        # without a Range; and an application that uses the PEP 3333 error idiom (a second start_response with exc_info before any
+        # body byte) behind the WSGI middleware
+        for stack in (("M",), ("E",), ("M", "M")):
+            for rng in (None, "bytes=2-5", "bytes=0-1,5-6"):
+                for method in ("GET", "HEAD"):
+                    app = m.FileResponse(p, chunk_size=4)
+                    for wname in stack:
+                        app = W[wname](app)
+                    res = call(iface, app, method, [("Range", rng)] if rng else [], zerocopy=(iface == "asgi"))
+                    judge(r, iface, f"file range={rng!r} {method} behind middleware {'>'.join(stack)}" + (" (zero-copy announced)" if iface == "asgi" else ""), res, None)
+        if iface == "wsgi":
+            import sys as _sys
+
+            def idiom(environ, start_response):
+                start_response("200 OK", [("Content-Type", "text/plain"), ("X-First", "1")])
+                try:
+                    raise RuntimeError("late failure before the first byte")
+                except RuntimeError:
+                    start_response("500 Internal Server Error", [("Content-Type", "text/plain")], _sys.exc_info())
+                return [b"error page"]
+            for stack in ((), ("M",), ("E", "M")):
+                app = idiom
+                for wname in stack:
+                    app = W[wname](app)
+                res = SV.run_wsgi(app, SV.to_environ(SV.AReq()), monitor=False)
+                probs = protocol_problems(iface, res, True)
+                r.count("evaluations")
+                r.count("distinct_nontrivial")
+                n_plain = sum(1 for c in res.start_calls if len(c) < 4 or not c[3]) if res.start_calls and len(res.start_calls[0]) >= 4 else len(res.start_calls)
+                if res.exc is not None or probs or (stack and len(res.start_calls) != 1):
+                    r.violation("protocol:wsgi:error-idiom", {"iface": iface, "recipe": f"error idiom behind {'>'.join(stack) or 'nothing'}", "fault": None},
+                                f"wsgi application replacing its response through start_response(..., exc_info) behind middleware {stack}: the server saw {len(res.start_calls)} start_response call(s) {[c[0] for c in res.start_calls]}, exception {res.exc!r:.80}, {probs[:1]}")
         for n in (262143, 262144, 262145, 524287, 524288, 524289, 786432, 1048576):
             for kind, mk in (("text", lambda: m.PlainTextResponse(b"x" * n)), ("html", lambda: m.HTMLResponse("y" * n)), ("json", lambda: m.JSONResponse("z" * (n - 2)))):
                 res = call(iface, mk(), "GET")
@@ -531,6 +564,22 @@ def run_shard(desc, tier):
                     judge(r, iface, name, call(iface, resp2, close_after=f), f"close() after {f} item(s)")
                 else:
                     judge(r, iface, name, call(iface, resp2, send_fail_at=f), f"send() fails at call {f}")
+        if iface == "asgi":
+            # the same streams as the response that refuses a WebSocket handshake on a server with the denial extension: with a
+            # producer that fails at any point, what was emitted is still a legal prefix (start, body ... - nothing else)
+            from baize.asgi.websocket import WebsocketDenialResponse
+            for kind, n, raise_at in stream_recipes(3):
+                scope = {"type": "websocket", "asgi": {"version": "3.0", "spec_version": "2.3"}, "http_version": "1.1", "scheme": "ws", "path": "/", "raw_path": b"/", "root_path": "", "query_string": b"",
+                         "headers": [], "server": ("example.com", 80), "client": ("1.2.3.4", 5), "subprotocols": [], "extensions": {"websocket.http.response": {}}}
+                res = SV.run_asgi(WebsocketDenialResponse(build_stream("asgi", kind, n, raise_at)), scope, [{"type": "websocket.connect"}], monitor=False, disconnect_type="websocket.disconnect")
+                types = [e.get("type") for e in res.events]
+                r.count("evaluations")
+                r.count("distinct_nontrivial")
+                w = {"iface": "asgi", "recipe": f"denial {kind} n={n} raise_at={raise_at}", "fault": None if raise_at is None else f"producer raises at step {raise_at}"}
+                bad = [t for t in types if not str(t).startswith("websocket.http.response.")]
+                probs = SV.asgi_http_problems([dict(e, type=e["type"][len("websocket."):]) for e in res.events if str(e.get("type")).startswith("websocket.http.response.")], complete=raise_at is None and res.exc is None)
+                if bad or probs or (raise_at is None and res.exc is not None):
+                    r.violation("protocol:asgi:denial-stream", w, f"asgi WebsocketDenialResponse over a {kind} of {n} items (producer fails at {raise_at}): event types {types}, exception {res.exc!r:.60}: {(bad or probs)[:1]}")
         r.sample({"iface": iface, "recipe": "sse n=3 raise_at=2", "fault": "send() fails at call 2"})
     elif desc[0] == "files":
         iface0 = desc[1]
